@@ -177,7 +177,15 @@ def build_harness():
     os.makedirs(BIN, exist_ok=True)
     shutil.copyfile(os.path.join(REPO, 'go.sum'), os.path.join(GO, 'go.sum'))
     with Lock('gobuild'):
-        rc, out, dt = sh(['go1.26', 'build', '-tags', 'verif', '-o', os.path.join(BIN, 'harness'), '.'],
+        # files listed in go/.buildignore (one glob per line) are work in progress and left out
+        ign = []
+        ip = os.path.join(GO, '.buildignore')
+        if os.path.exists(ip):
+            ign = [l.strip() for l in open(ip) if l.strip()]
+        import fnmatch
+        files = sorted(f for f in os.listdir(GO) if f.endswith('.go') and not f.endswith('_test.go')
+                       and not any(fnmatch.fnmatch(f, g) for g in ign))
+        rc, out, dt = sh(['go1.26', 'build', '-tags', 'verif', '-o', os.path.join(BIN, 'harness')] + files,
                          cwd=GO, env=GOENV, timeout=900)
     return rc, out, dt
 
